@@ -301,11 +301,17 @@ ENGINES["C19"].append(parallel_engine)
 # Plain unit-test replays of the repaired findings F1-F3 (regressions/tests/findings.rs): fail if one returns
 # ---------------------------------------------------------------------------------------------------------------
 REGRESSION_TESTS = {"C07": "f1_trace_panic_leaves_no_stale_tracing_counter", "C14": "f2_new_cyclic_with_panicking_automatic_collection_touches_no_value", "C12": "f3_collection_started_from_rc_finalizer_is_observable", "C10": "f4_cleaning_actions_reentering_their_own_cleaner"}
+REGRESSION_TESTS_EXTRA = {"C10": ["f5_register_nested_in_register_through_an_automatic_collection"]}
 
 
 def regressions_engine(prop, tier, seed, out, known):
+    for name in [REGRESSION_TESTS[prop]] + REGRESSION_TESTS_EXTRA.get(prop, []):
+        _regression(prop, name, out, known)
+    return {}
+
+
+def _regression(prop, name, out, known):
     t0 = time.time()
-    name = REGRESSION_TESTS[prop]
     rdir = os.path.join(driver.ROOT, "regressions")
     shutil.copy("/repo/Cargo.lock", os.path.join(rdir, "Cargo.lock"))
     e = driver.env_offline()
@@ -324,7 +330,7 @@ def regressions_engine(prop, tier, seed, out, known):
             out.known.append("%s (%s)" % (k.get("id", "?"), v["message"]))
         else:
             os.makedirs(driver.REPLAYS, exist_ok=True)
-            path = os.path.join(driver.REPLAYS, "%s-regression.json" % prop)
+            path = os.path.join(driver.REPLAYS, "%s-regression-%s.json" % (prop, name[:2]))
             json.dump({"property": prop, "engine": "regression", "test": name, "violations": [v], "how_to_replay": "cd /verif/regressions && cargo test --offline --test findings " + name}, open(path, "w"), indent=1)
             out.violations.append((path, "P-regression " + v["message"]))
     return {}
